@@ -32,7 +32,7 @@ def run(idx: Index, rep: Report, tier: str) -> None:
         rep.note_function(f.qualname)
         cfg = cfg_of(f)
         ws = tracked_writes(cfg, set(), params={"fluents_assigned", "fluents_inc_dec"})
-        if name == "check_conflicting_effects" and len(ws) < 2:
+        if name == "check_conflicting_effects" and len(ws) < 1:
             raise AnalysisError("anchor vanished: bookkeeping writes in check_conflicting_effects")
         for w, what in ws:
             n += 1
